@@ -66,6 +66,44 @@ unsafe fn post_recv_nothing(a0: &Alpha, a1: &Alpha, i: usize, drops0: usize, clo
 }
 
 // ---------------------------------------------------------------------------------------------
+// S1p / S2p: a producer never claims a slot that a consumer has pinned
+
+/// try_send_{single,multi} on a broadcast queue from an arbitrary state that is well-formed except that
+/// the slot the next send would write carries ONE pin of a sibling consumer (a consumer of a shared stream
+/// that validated its position earlier and is still cloning while the stream has moved on): whatever the
+/// cache says and whichever writer mode is used, the send must be refused (value handed back, nothing
+/// written), because writing would destroy the value under the consumer's clone.
+pub unsafe fn s_try_send_pinned<RW: QueueRW<Pay>>(n: usize, k: usize, kind: SendKind) {
+    let w = World::<RW>::arbitrary(n, k, false, false);
+    let a0 = w.a;
+    let slot = a0.slot_of(a0.head);
+    // the pinned value is the one a full lap behind the claim counter
+    rt::assume(a0.tag[slot] != INITIAL_QUEUE_FLAG);
+    (*w.q.refs.add(slot)).refcnt.poke(1);
+    let v: usize = rt::oracle_usize();
+    let p = Pay::new(v);
+    let pser = p.ser;
+    let drops0 = pay::DROPS;
+    let r = match kind {
+        SendKind::Single => w.q.try_send_single(p),
+        SendKind::Multi => w.q.try_send_multi(p),
+    };
+    let a1 = w.observe();
+    match r {
+        Err(TrySendError::Full(back)) => {
+            assert!(back.ser == pser && back.val == v && back.is_live(), "C01: refused value handed back intact");
+            mem::forget(back);
+        }
+        _ => assert!(false, "C04/C12: a producer claimed a slot that a consumer holds a pin on (single- or multi-writer mode, fresh or stale cache alike)"),
+    }
+    assert!(a1.head == a0.head && same_except_slot(&a0, &a1, usize::MAX) && pay::DROPS == drops0, "C04: nothing may be written or destroyed while the slot is pinned");
+    assert!(a1.refcnt[slot] == 1, "a producer never touches the pin count");
+    kani_cover!(!a0.full() && a0.tail_cache != a0.min_pos(), "pinned slot with room and a stale cache reachable");
+    kani_cover!(!a0.full() && a0.tail_cache == a0.min_pos(), "pinned slot with room and a fresh cache reachable");
+    mem::forget(w);
+}
+
+// ---------------------------------------------------------------------------------------------
 // S4: try_recv_view on a sole-consumer stream
 
 /// Contract of MultiQueue::try_recv_view(view_fn, reader of stream i), stream with ONE consumer.
